@@ -143,10 +143,11 @@ impl Prop for C09 {
                     rng.usize(1, 9)
                 };
                 let n_tx = if n_tx == 256 && rng.coin() { 257 } else { n_tx };
-                // rarely a block with tens of thousands of (tiny) transactions: a merkle tree 15 and 16 levels high
-                let n_tx = if !long && !huge_done && rng.chance(1, 150) {
+                // rarely a block with thousands to tens of thousands of (tiny) transactions: merkle trees 12 to 16 levels
+                // high, with odd levels just above 2^11, 2^12, 2^13, 2^14 (round 13, U2-1)
+                let n_tx = if !long && !huge_done && rng.chance(1, 100) {
                     huge_done = true;
-                    *rng.pick(&[16_384usize, 16_385, 20_000, 32_769])
+                    *rng.pick(&[2_049usize, 4_098, 8_193, 16_384, 16_385, 20_000, 32_769])
                 } else {
                     n_tx
                 };
@@ -205,6 +206,9 @@ impl Prop for C09 {
             }
             if long {
                 st_probe_long(h);
+            }
+            if scn.chain.iter().any(|b| b.txs.len() >= 2_049) {
+                h.stats.probe("block_with_2049_plus_txs");
             }
             if scn.chain.iter().any(|b| b.txs.len() >= 16_384) {
                 h.stats.probe("block_with_16384_plus_txs");
